@@ -198,7 +198,15 @@ leg.extra.update(rounds_reusing_previous_code_address=int(reused))
 
 # the other direction: a FOREIGN thread (not started by Trio) inside from_thread.run(afn, trio_token=...) continues into the
 # system task serving it, and on through every further to_thread / reentrant from_thread alternation
-def foreign_thread_scenario(depth, observer="trio-thread"):
+def idle_run(started, stop):
+    """another Trio run, alive in its own thread for the whole scenario, serving nothing"""
+    async def idle():
+        started.set()
+        while not stop.is_set(): await trio.sleep(0.001)
+    trio.run(idle)
+
+
+def foreign_thread_scenario(depth, observer="trio-thread", other_run=None):
     ev = threading.Event(); arrived = threading.Event(); out = {}
     async def in_trio(d):
         if d == 0:
@@ -211,6 +219,10 @@ def foreign_thread_scenario(depth, observer="trio-thread"):
         try: trio.from_thread.run(in_trio, depth, trio_token=token)
         except BaseException: pass
     async def main():
+        if other_run == "after":
+            st2, stop2 = threading.Event(), threading.Event(); out["stop2"] = stop2
+            threading.Thread(target=idle_run, args=(st2, stop2), daemon=True).start()
+            while not st2.is_set(): await trio.sleep(0.001)
         t = threading.Thread(target=external, args=(trio.lowlevel.current_trio_token(),), daemon=True); t.start()
         while not arrived.is_set(): await trio.sleep(0.001)
         await trio.testing.wait_all_tasks_blocked()
@@ -230,15 +242,32 @@ def foreign_thread_scenario(depth, observer="trio-thread"):
         out["ds"] = [(f.funcname, f.pyframe.f_locals.get("d")) for f in st.frames if f.funcname in ("in_trio", "in_thread")]
         out["vis"] = [f.funcname for f in st.frames if not f.hide]; out["err"] = st.error; out["w"] = [str(x.message)[:60] for x in w]
         raise KeyboardInterrupt          # tear the run down (the worker threads are daemons of Trio's cache)
-    try: trio.run(main)
-    except BaseException: pass
+    if other_run == "before":
+        st2, stop2 = threading.Event(), threading.Event(); out["stop2"] = stop2
+        threading.Thread(target=idle_run, args=(st2, stop2), daemon=True).start()
+        st2.wait()
+        # the serving run gets a thread of its own, younger than the idle run's: whatever order the registry of per-thread run
+        # contexts has, the run to find is not the first one in it
+        def serve():
+            try: trio.run(main)
+            except BaseException: pass
+        ths = threading.Thread(target=serve); ths.start(); ths.join()
+    else:
+        try: trio.run(main)
+        except BaseException: pass
+    if out.get("stop2") is not None: out["stop2"].set()
     return out
 
 import trio.testing
-for d, observer in [(d_, o_) for d_ in range(0, 4 if THOROUGH else 3) for o_ in ("trio-thread", "other-thread")]:
-    key = ("foreign-thread-hops", d, observer)
+for d, observer, other_run in [(d_, o_, r_) for d_ in range(0, 4 if THOROUGH else 3) for o_ in ("trio-thread", "other-thread")
+                               for r_ in (None, "before", "after")]:
+    if other_run is not None and d > 1:
+        continue
+    # other_run: a SECOND Trio run is alive in another thread (started before / after the one that serves the foreign thread):
+    # the chain continues into the run whose token was used, whichever run the registry lists first
+    key = ("foreign-thread-hops", d, observer) + ((f"second-run-{other_run}",) if other_run else ())
     leg.case(key, True)
-    o = foreign_thread_scenario(d, observer)
+    o = foreign_thread_scenario(d, observer, other_run)
     want = [x for k in range(d, 0, -1) for x in (("in_trio", k), ("in_thread", k))] + [("in_trio", 0)]
     if o.get("ds") != want or o.get("err") is not None or o.get("w") or (o.get("vis") or [None])[0] != "external":
         leg.violation(key, f"foreign thread in from_thread.run, alternation depth {d}: chain {o.get('ds')} != {want}; visible {o.get('vis')}; "
